@@ -144,7 +144,8 @@ func nilOnSuccess(p *an.Prog) map[*ssa.Function]map[int]bool {
 				// results spilled into cells (a function with a defer): every `return x, y` stores into the cells and
 				// jumps to the one Return. Judge each storing site with the values it stores together.
 				if ld, isLd := ev.(*ssa.UnOp); isLd && ld.Op == token.MUL {
-					if ec, isCell := ld.X.(*ssa.Alloc); isCell && spilledSites(ec) > 1 {
+					if ec, isCell := ld.X.(*ssa.Alloc); isCell && spilledSites(ec) >= 1 {
+						unjudged := false
 						for _, sb := range f.Blocks {
 							errV := lastStoreIn(sb, ec)
 							if errV == nil {
@@ -164,6 +165,7 @@ func nilOnSuccess(p *an.Prog) map[*ssa.Function]map[int]bool {
 								}
 								pv := lastStoreIn(sb, pc)
 								if pv == nil {
+									unjudged = true
 									continue // assigned elsewhere (before the branch): not judged at this site
 								}
 								if pairNilNil(pv, errV, sb) {
@@ -175,7 +177,11 @@ func nilOnSuccess(p *an.Prog) map[*ssa.Function]map[int]bool {
 								}
 							}
 						}
-						continue
+						// one storing site (returns merged into one, by hand or by inlining) that stores all the results
+						// together has been judged with its values paired; otherwise the cells are judged as loads below
+						if spilledSites(ec) > 1 || !unjudged {
+							continue
+						}
 					}
 				}
 				// tuple forwarding: return g(...)
